@@ -119,7 +119,10 @@ class Run(object):
                 elif a in ("Uploaded", "UploadedAgain"):
                     line = "650 HS_DESC UPLOADED %s UNKNOWN %s\r\n" % (sid, d)
                 else:
-                    line = "650 HS_DESC FAILED %s UNKNOWN %s REASON=UPLOAD_REJECTED\r\n" % (sid, d)
+                    # (Tor gives several reasons for a failed upload: the directory rejected it, or could not be reached)
+                    self.nfail = getattr(self, "nfail", 0) + 1
+                    reason = ["REASON=UPLOAD_REJECTED", "REASON=UNEXPECTED", "REASON=UPLOAD_REJECTED", "REASON=UNEXPECTED"][self.nfail % 4]
+                    line = "650 HS_DESC FAILED %s UNKNOWN %s desc%s %s\r\n" % (sid, d, e["d"], reason)
                 self.sim.event(line)
         except Exception:
             self.exc = True
